@@ -47,6 +47,8 @@ CHECKS = {
             dict(harness="C02_D2B2", cover=["arith-in-parentheses"], bounds="derivations of depth 2 with at most 2 non-default productions"),
             dict(harness="C02_Reserved", bounds="16 reserved words x {argument, for item, case pattern, redirection target, assignment value, case word}"),
             dict(harness="C02_Closers", bounds="16 programs with a reserved word directly after ) } fi done esac, against the same text with a separator"),
+            dict(harness="C02_Ref_F3", cover=["ref-complete", "ref-rejects"], bounds="differential against the independent recogniser refparse: every 3-rune input over D that the recogniser classifies as a complete command is accepted and consumed exactly"),
+            dict(harness="C02_Ref_T1", cover=["ref-complete", "ref-rejects"], bounds="same differential on 57 templates x one symbolic hole"),
             dict(harness="C02_Cross", bounds="14 cross-construct programs (parenthesis bookkeeping of case patterns, subshells, function definitions, substitutions vs the (( )) command), each against an equivalent spelling"),
         ],
         "thorough": [
@@ -56,6 +58,9 @@ CHECKS = {
             dict(harness="C02_Reserved"),
             dict(harness="C02_Closers"),
             dict(harness="C02_Cross"),
+            dict(harness="C02_Ref_F3", cover=["ref-complete", "ref-rejects"]),
+            dict(harness="C02_Ref_F4", cover=["ref-complete", "ref-rejects"], bounds="same differential on every 4-rune ASCII input"),
+            dict(harness="C02_Ref_T1", cover=["ref-complete", "ref-rejects"]),
         ],
     },
     "C03": {
@@ -63,9 +68,16 @@ CHECKS = {
             dict(harness="C03_Negative", bounds="82 hand-written ill-formed programs (unbalanced / misplaced reserved words and operators, missing operands, unterminated quotes, expansions and here-documents, bad for/case/function syntax)"),
             dict(harness="C03_Damage", cover=["deleted-reserved-word", "duplicated-operator", "stray-at-start", "operator-at-end"], bounds="generated single-line derivations (depth 2, at most 2 non-default productions) x one damage that makes them ill-formed by construction (delete a closing / opening reserved word, duplicate an operator, operator or stray closer at the start, binary operator at the end) x every applicable position"),
             dict(harness="C03_Loc_F3", cover=["accepted", "rejected"], bounds="all 3-rune inputs over D: error location on rejecting paths, character conservation on accepting paths"),
-            dict(harness="C03_Loc_T1", cover=["accepted", "rejected"], bounds="52 templates x one symbolic hole over D"),
+            dict(harness="C03_Loc_T1", cover=["accepted", "rejected"], bounds="57 templates x one symbolic hole over D"),
+            dict(harness="C03_Ref_F3", cover=["ref-complete", "ref-rejects"], bounds="differential against the independent recogniser refparse: every 3-rune input over D that the recogniser does not classify as a complete command is rejected"),
+            dict(harness="C03_Ref_T1", cover=["ref-complete", "ref-rejects"], bounds="same differential on 57 templates x one symbolic hole"),
+            dict(harness="C03_Ref_Gen", bounds="the recogniser and the parser against the derivation generator (depth 2, budget 2, single line): both accept every derivation"),
         ],
         "thorough": [
+            dict(harness="C03_Ref_F3", cover=["ref-complete", "ref-rejects"]),
+            dict(harness="C03_Ref_F4", cover=["ref-complete", "ref-rejects"], bounds="same differential on every 4-rune ASCII input"),
+            dict(harness="C03_Ref_T1", cover=["ref-complete", "ref-rejects"]),
+            dict(harness="C03_Ref_Gen"),
             dict(harness="C03_Negative"),
             dict(harness="C03_Damage", cover=["deleted-reserved-word", "duplicated-operator", "stray-at-start", "operator-at-end"]),
             dict(harness="C03_Loc_F2", cover=["accepted", "rejected"]),
@@ -333,8 +345,8 @@ META = {
                 note="inputs longer than the bounds, code points outside D and the std decoders behind string/[]byte/io.Reader sources (smoke-tested concretely) are outside the claim; goroutines run under the deterministic baton schedule plus a drain phase after return"),
     "C02": dict(text="Every derivation produced by the generator within the bounds (each grammar production and each pair of productions, single-line and multi-line layout) is accepted and the AST's position-free skeleton equals the skeleton generated with the derivation, for every value of the symbolic first characters of words and names; reserved words are ordinary words in six non-command positions and are recognised directly after every closing token. " + BOUNDED,
                 note="derivations are enumerated by the executor under a variety budget (at most 2 / 3 non-default productions, depth <= 2); here-documents are covered by C08, layout variation by C09; known finding KF-C02-arith-in-parentheses"),
-    "C03": dict(text="(A) every program that is ill-formed by construction within the bounds (hand-written list; generated derivations with one guaranteed-fatal damage) is rejected; (B) on every rejecting path over symbolic inputs the syntactic error is a parser.Error with the caller's name whose line:column lies inside the consumed text and designates a token start; (C) on every accepting path the printed AST has as many non-layout characters as the consumed source (no token silently dropped). " + BOUNDED,
-                note="there is no independent recogniser of the full dialect: 'ill-formed' is by construction (damage kinds that cannot yield a sentence) or by a hand-written list, so arbitrary ill-formed token strings are covered only through (B) and (C); conservation is a character count (re-association is covered by C05's round trip)"),
+    "C03": dict(text="(A) every input within the bounds that the independent recogniser classifies as ill-formed or incomplete, and every program that is ill-formed by construction (hand-written list; generated derivations with one guaranteed-fatal damage), is rejected; (B) on every rejecting path over symbolic inputs the syntactic error is a parser.Error with the caller's name whose line:column lies inside the consumed text and designates a token start; (C) on every accepting path the printed AST has as many non-layout characters as the consumed source (no token silently dropped). " + BOUNDED,
+                note="'ill-formed' is decided by the independent recursive-descent recogniser refparse (harness/h/refparse.go: POSIX token recognition and grammar plus go.sh's pinned quirks; validated against the parser on the repository corpus by setup, and against the derivation generator), by construction (damage kinds that cannot yield a sentence) and by a hand-written list; the recogniser excludes line continuations inside words/here-documents; conservation is a character count (re-association is covered by C05's round trip)"),
     "C04": dict(text="Intrinsic (source, AST) check on every accepting path within the bounds: the source characters at each recorded position spell the documented token (operators, reserved words, quote characters, $ ${ $(( ( ) ` names, literals, #), Pos/End inside the source, Pos <= End, non-empty nodes have non-zero End, children nest, siblings are ordered; columns in characters (non-ASCII representatives included). The source runes are symbolic, so spelling is a solver obligation. " + BOUNDED,
                 note="alias-free; literal spelling is skipped when the source contains a line continuation; when the source contains '<<' only the starts of siblings/children are compared (a here-document redirection ends at its delimiter line); Comment.End is excluded as the property says"),
     "C05": dict(text="Metamorphic round trip on every accepting path within the bounds, for every bit pattern of the printer Config: the printed text is accepted and its skeleton (with ; and newline identified, singleton lists collapsed) equals the original's, here-document bodies byte for byte, node kinds unchanged. " + BOUNDED,
